@@ -57,7 +57,7 @@ def qr_adversarial_phase(rep, impl_exe, rng, tier, run_fresh_each):
     for lvl in range(4):
         for v in (range(1, 41) if tier == "thorough" else [1, 2, 5, 9, 10, 11, 17, 26, 27, 33, 40]):
             for m1 in (1, 2, 3):
-                c1 = c01.capacity(m1, lvl, v)
+              for c1 in (c01.capacity(m1, lvl, v), c01.capacity(m1, lvl, v) + 1):
                 P = pbits(m1, c1)
                 for m2 in (1, 2, 3):
                     if m2 == m1:
@@ -66,6 +66,16 @@ def qr_adversarial_phase(rep, impl_exe, rng, tier, run_fresh_each):
                     if n2:
                         seq.append("enc qr %d %d %s" % (lvl, m1, J.hx(c01.content_for(m1, c1, rng))))
                         seq.append("enc qr %d %d %s" % (lvl, rng.choice([m2, 0]) if m2 == 3 else m2, J.hx(c01.content_for(m2, n2[0], rng))))
+    # the same content at every level back to back, in several orders and modes (a result cached under a
+    # key that confuses levels would be replayed)
+    for n in (list(range(1, 30)) + [41, 77, 127, 200] if tier == "quick" else list(range(1, 200))):
+        dig = c01.content_for(1, n, rng)
+        aln = c01.content_for(2, n, rng)
+        for order in ([0, 2, 1, 3], [3, 1, 2, 0], [2, 0, 3, 1]):
+            for lvl in order:
+                seq.append("enc qr %d %d %s" % (lvl, rng.choice([1, 0]), J.hx(dig)))
+            for lvl in order:
+                seq.append("enc qr %d %d %s" % (lvl, rng.choice([2, 0]), J.hx(aln)))
     sq_hist = run_lines(impl_exe, seq, shards=1)
     sq_uniq = sorted(set(seq))
     sq_fresh = dict(zip(sq_uniq, run_fresh_each(impl_exe, sq_uniq)))
